@@ -348,7 +348,9 @@ impl cmp::PartialEq for Value {
             (Value::ObjTupleIter(first), Value::ObjTupleIter(second)) => *first == *second,
             (Value::ObjVec(first), Value::ObjVec(second)) => *first.borrow() == *second.borrow(),
             (Value::ObjVecIter(first), Value::ObjVecIter(second)) => *first == *second,
-            (Value::ObjRange(first), Value::ObjRange(second)) => *first == *second,
+            (Value::ObjRange(first), Value::ObjRange(second)) => {
+                first.begin == second.begin && first.end == second.end
+            }
             (Value::ObjRangeIter(first), Value::ObjRangeIter(second)) => *first == *second,
             (Value::ObjHashMap(first), Value::ObjHashMap(second)) => {
                 *first.borrow() == *second.borrow()
